@@ -1239,6 +1239,7 @@ func rootIdentObj(info *types.Info, e ast.Expr) types.Object {
 // (context.With*, metadata.AppendToOutgoingContext, the tx's own ctx helper) - never with a fresh root context.
 func c11CtxFromCaller(p *Prog, r *Report, rule string) {
 	n := 0
+	rpcNames := map[string]bool{}
 	for _, k := range sortedFuncKeys(p) {
 		fi := p.Funcs[k]
 		if shortPath(fi.Pkg.PkgPath) != pkgExtDB || fi.Decl.Body == nil {
@@ -1326,6 +1327,7 @@ func c11CtxFromCaller(p *Prog, r *Report, rule string) {
 				return true
 			}
 			n++
+			rpcNames[fn.Name()] = true
 			cons := fmt.Sprintf("%s#%s-context-from-caller", k, fn.Name())
 			if ctxParam == nil {
 				r.Viol(rule, cons, p.pos(c), "the method has no context parameter to derive the call's context from")
@@ -1336,7 +1338,8 @@ func c11CtxFromCaller(p *Prog, r *Report, rule string) {
 			return true
 		})
 	}
-	r.Floor(rule, "external-client-grpc-calls", n, 9)
+	// the floor counts the distinct RPCs the client uses (two methods may share one call through a helper)
+	r.Floor(rule, "external-client-rpcs", len(rpcNames), 7)
 }
 
 // rootedCall: a call that derives a context from a context argument (context.With*, metadata helpers, or any
